@@ -210,6 +210,12 @@ func main() {
 		for i := 0; i < 25; i++ {
 			rn.MarshalCase("marshal-inet-string", pvOf(), mv.Native(gocql.TypeInet), mv.VStr(false, mv.InetString(r)), true)
 		}
+		// inet values whose length is neither 4 nor 16 (not conformant: correspondence only)
+		for _, n := range []int{1, 3, 5, 15, 17, 20} {
+			for _, g := range []*mv.GTy{mv.TK("str"), mv.TK("ip"), mv.TPtr(mv.TK("str"))} {
+				rn.DecodeCase("unmarshal-inet-odd-length", pvOf(), mv.Native(gocql.TypeInet), r.Bytes(n), g, nil, false, false, "")
+			}
+		}
 		for _, bc := range mv.BytesCases(r) {
 			pv := 3 + r.Intn(3)
 			c, null, ok := mv.Denote(bc.T, bc.V)
@@ -301,6 +307,8 @@ func main() {
 	for k, n := range rn.Stat {
 		o.Extra[k] = n
 	}
+	rn.BigElementChecks()
+	rn.SizeFieldBoundaryCases()
 	rn.Recheck()
 	o.Extra["coverage_matrix"] = rn.Matrix
 	o.Finish("From GocqlV Require Import Lib.Base C12.Model C12.Spec C12.Corr.", "C12.Corr.case", "C12.Corr.run")
